@@ -88,6 +88,7 @@ class FI:
         self.obl = {}            # (kind, inst id, extra) -> dict(ok, detail, inst, n)
         self.silent = 0
         self.loops = {}          # header name -> dict(rounds=int|None, closed='unrolled'|'widened-short'|'widened-cap')
+        self.cstr_end = {}       # local object -> largest index of the terminator found by a strlen / at a hand-over
         self.ranges = {}         # ssa key -> joined value over all visits (recording passes only)
         self.call_hooks = {}     # callee name -> f(fi, st, inst, args)
         self.store_hook = None   # f(fi, st, inst, ptr, value)
@@ -964,6 +965,7 @@ class FI:
             elif isinstance(o, tuple) and o[0] == 'a':
                 sz = self.size_of(o)
                 if sz is None or hi - lo > 4096 or lo < 0:
+                    self.cstr_end[o] = 1 << 40
                     return None
                 for off in range(lo, min(hi, sz - 1) + 1):
                     first_may = None
@@ -977,7 +979,10 @@ class FI:
                                 must = q - off
                                 break
                     if must is None:
+                        self.cstr_end[o] = 1 << 40
                         return None
+                    if not self.silent:
+                        self.cstr_end[o] = max(self.cstr_end.get(o, -1), off + must)
                     lo_all = first_may if lo_all is None else min(lo_all, first_may)
                     hi_all = must if hi_all is None else max(hi_all, must)
             else:
@@ -1059,11 +1064,19 @@ class FI:
                 return ret(d)
             ln = n[0] + 1
             self.check_access(st, d, ln, i, 'strcpy')
-            src = s_.alts[0] if len(s_.alts) == 1 and s_.alts[0][1] == s_.alts[0][2] else None
             data = None
-            if src is not None and isinstance(src[0], str) and src[0].startswith('g:'):
-                b = self.global_bytes(src[0][2:])
-                data = b[src[1]:src[1] + ln]
+            if all(isinstance(a[0], str) and a[0].startswith('g:') and a[1] == a[2] for a in s_.alts):
+                rows = []
+                for a in s_.alts:
+                    b = self.global_bytes(a[0][2:])
+                    rows.append(b[a[1]:a[1] + ln] if b is not None else None)
+                if all(r_ is not None and len(r_) == ln for r_ in rows):
+                    data = []
+                    for col in zip(*rows):
+                        v = IV.const(col[0])
+                        for c in col[1:]:
+                            v = v.join(IV.const(c))
+                        data.append(v)
             if len(d.alts) == 1 and isinstance(d.alts[0][0], tuple):
                 o, lo, hi = d.alts[0]
                 self.kill_aliases(st, o)
@@ -1071,7 +1084,7 @@ class FI:
                     for k in [k for k in st.mem if k[0] == o and lo <= k[1] < lo + ln]:
                         del st.mem[k]
                     for n_, bt in enumerate(data):
-                        st.mem[(o, lo + n_, 1)] = IV.const(bt)
+                        st.mem[(o, lo + n_, 1)] = bt
                 else:
                     for k in [k for k in st.mem if k[0] == o]:
                         del st.mem[k]
